@@ -82,7 +82,7 @@ pub fn spell(neg: bool, m: &[u8], sp: &Value, ty: &str) -> String {
         digits = if digits.len() > 1 { format!("{}_{}", &digits[..1], &digits[1..]) } else { format!("{}_", digits) };
     }
     let prefix = match radix { 16 => "0x", 8 => "0o", 2 => "0b", _ => "" };
-    let suffix = match sp["suffix"].as_str().unwrap() { "own" => ty, "other" => if ty == "i64" { "u16" } else { "i64" }, _ => "" };
+    let suffix = match sp["suffix"].as_str().unwrap() { "own" => ty, "other" => if ty == "i64" { "u16" } else { "i64" }, "float" => if m.len() % 2 == 0 { "f32" } else { "f64" }, _ => "" };
     let sign = if neg { "-" } else if sp["plus"] == true { "+" } else { "" };
     let lit = format!("{}{}{}{}", sign, prefix, digits, suffix);
     if sp["quoted"] == true { format!("\"{}\"", lit) } else { lit }
